@@ -68,6 +68,7 @@ DEFECT_SCRIPTS = [
 MC_DEPS = {
     "Small": ["Hashbrown.tla", "Griddle.tla", "GriddleCount.tla", "MCGriddle.tla"],
     "CountR8": ["Hashbrown.tla", "GriddleCount.tla", "MCCount.tla"],
+    "CountR4": ["Hashbrown.tla", "GriddleCount.tla", "MCCount.tla"],
     "Fault": ["Hashbrown.tla", "Griddle.tla", "GriddleCount.tla", "MCGriddle.tla"],
     "Iter": ["Hashbrown.tla", "Griddle.tla", "GriddleCount.tla", "MCGriddle.tla", "MCIter.tla"],
     "Overflow": ["Hashbrown.tla", "GriddleCount.tla", "MCCount.tla"],
@@ -97,6 +98,11 @@ MC = {
         "quick": ("MCCount", "MCOverflowDbg", 6, 3600),
         "thorough": ("MCCount", "MCOverflowDbg", 6, 900),
     },
+    # the other instance of (R, Group::WIDTH): what cfg(test) and Miri builds of the crate run with
+    "CountR4": {
+        "quick": ("MCCount", "MCCountR4_32", 6, 3600),
+        "thorough": ("MCCount", "MCCountR4", 12, 7200),
+    },
     "CountR8": {
         "quick": ("MCCount", "MCCountR8_64", 8, 3600),
         "thorough": ("MCCount", "MCCountR8", 12, 3600),
@@ -107,9 +113,9 @@ ALL_MAP = ["core_heap", "core_plain", "core_zst", "rel_heap", "defects"]
 
 PROPS = {
     "C01": dict(suites=["entry_heap", "entry_plain", "sim_plain", "sim_heap", "tomb_plain", "tomb_heap", "core_heap", "core_plain", "core_zst", "rel_heap", "rel_plain", "defects"], mc=["Small", "CountR8"]),
-    "C02": dict(suites=["sim_plain", "sim_heap", "big_plain", "big_heap", "big_collide", "tomb_plain", "tomb_heap", "core_plain", "rel_plain", "core_heap", "defects"], mc=["CountR8"]),
+    "C02": dict(suites=["sim_plain", "sim_heap", "big_plain", "big_heap", "big_collide", "tomb_plain", "tomb_heap", "core_plain", "rel_plain", "core_heap", "defects"], mc=["CountR8", "CountR4"]),
     "C03": dict(suites=["sim_plain", "sim_heap", "big_plain", "big_heap", "big_collide", "tomb_plain", "tomb_heap", "core_plain", "core_heap", "rel_plain", "set_heap", "defects"], mc=["Small", "CountR8"]),
-    "C04": dict(suites=["sim_plain", "sim_heap", "big_plain", "big_heap", "big_collide", "tomb_plain", "tomb_heap", "core_plain", "rel_plain", "limits_dbg", "limits_rel", "two_heap", "defects"], mc=["Small", "CountR8"], apalache=True),
+    "C04": dict(suites=["sim_plain", "sim_heap", "big_plain", "big_heap", "big_collide", "tomb_plain", "tomb_heap", "core_plain", "rel_plain", "limits_dbg", "limits_rel", "two_heap", "defects"], mc=["Small", "CountR8", "CountR4"], apalache=True),
     "C05": dict(suites=["sim_plain", "sim_heap", "fault_heap", "fault_heap_rel", "tomb_plain", "tomb_heap", "core_heap", "rel_heap", "core_zst", "set_heap", "set_zst", "two_heap", "two_plain_rel", "defects"], mc=["Iter", "Small", "CountR8"], asan=["two_heap", "two_plain_rel", "core_heap", "fault_heap", "set_heap", "tomb_heap", "defects"], miri=True),
     "C06": dict(suites=["entry_heap", "entry_plain", "core_heap", "rel_heap", "two_heap", "set_heap", "set_two", "defects"], mc=["Small"]),
     # after an injected panic the semantic/safety monitors are part of "the map stays memory-safe and
